@@ -365,6 +365,24 @@ func famAddrRoundTrip(c *mon.Ctx) func(k *mon.Case) {
 			}
 		}
 		checkScripts(k, a, want, n)
+		if pk, ok := a.(*address.AddressPubKey); ok {
+			// switching the serialization format switches every derived form (the value was already encoded above)
+			pt, _ := refec.ParsePubKey(want.payload)
+			forms := map[address.PubKeyFormat][]byte{address.PKFCompressed: pt.Compressed(), address.PKFUncompressed: pt.Uncompressed()}
+			orig := pk.Format()
+			for _, f := range []address.PubKeyFormat{address.PKFCompressed, address.PKFUncompressed, address.PKFCompressed, orig} {
+				pk.SetFormat(f)
+				w := makeRef("pubkey", n, forms[f])
+				checkAgainstRef(k, "SetFormat", pk, w)
+				if h := pk.AddressPubKeyHash(); h.EncodeAddress() != w.encoded || !bytes.Equal(h.ScriptAddress(), refaddr.Hash160(forms[f])) {
+					k.Failf("addr:SetFormat:AddressPubKeyHash", "format %d: got %s want %s", f, h.EncodeAddress(), w.encoded)
+				}
+				if s, err := txscript.PayToAddrScript(pk); err != nil || !bytes.Equal(s, w.script) {
+					k.Failf("addr:SetFormat:PayToAddrScript", "format %d: got %x want %x", f, s, w.script)
+				}
+				k.Count("addr.pubkey.setformat", 1)
+			}
+		}
 		k.Count("addr.roundtrip."+kind, 1)
 		k.Count("addr.net."+n.Name, 1)
 		k.Eval(mon.Sig("addr.roundtrip", n.Name, kind, want.str), true)
